@@ -9,7 +9,7 @@ set_option linter.unusedSimpArgs false
 set_option linter.unusedVariables false
 
 namespace Poetry.Build
-open Poetry
+open Poetry Std
 
 /-! ## permission bits -/
 
@@ -228,5 +228,273 @@ theorem distInfo_member (H : String → String) (p : WheelPlan) (f : DiFile) (hf
   unfold copyDistInfoOps
   rw [List.mem_map]
   exact ⟨f, (mem_sortBy _ _ _).2 hf, rfl⟩
+
+
+/-! ## path order, calendar, sorting, modes (C08) -/
+
+instance : TransOrd PathKey := inferInstance
+instance : LawfulEqOrd PathKey := inferInstance
+instance : OrientedOrd PathKey := inferInstance
+
+theorem pathLe_trans (a b c : PathKey) (h1 : pathLe a b = true) (h2 : pathLe b c = true) : pathLe a c = true :=
+  TransOrd.isLE_trans h1 h2
+
+theorem pathLe_total (a b : PathKey) : (pathLe a b || pathLe b a) = true := by
+  unfold pathLe
+  rw [OrientedCmp.eq_swap (cmp := compare) (a := a) (b := b)]
+  cases compare b a <;> rfl
+
+theorem pathLe_antisymm (a b : PathKey) (h1 : pathLe a b = true) (h2 : pathLe b a = true) : a = b := by
+  unfold pathLe at *
+  rw [OrientedCmp.eq_swap (cmp := compare) (a := a) (b := b)] at h1
+  have : compare b a = .eq := by cases h : compare b a <;> simp [h] at h1 h2 ⊢
+  exact (compare_eq_iff_eq.1 this).symm
+
+theorem compare_append_left (r a b : PathKey) : compare (r ++ a) (r ++ b) = compare a b := by
+  induction r with
+  | nil => rfl
+  | cons x xs ih =>
+    show compare (x :: (xs ++ a)) (x :: (xs ++ b)) = _
+    rw [List.compare_cons_cons, ReflCmp.compare_self (cmp := compare) (a := x), Ordering.eq_then, ih]
+theorem civil_year_ge (z0 : Int) (h : 3652 ≤ z0) : 1980 ≤ (civilFromDays z0).1 := by
+  unfold civilFromDays
+  simp only
+  by_cases h5 : 730485 ≤ z0 + 719468
+  · split <;> split <;> omega
+  · have hc : (z0 + 719468) / 146097 = 4 := by omega
+    have hd : (z0 + 719468) % 146097 = z0 + 719468 - 584388 := by omega
+    rw [hc, hd]
+    by_cases h6 : 138792 ≤ z0 + 719468 - 584388
+    · split <;> split <;> omega
+    · split <;> split <;> omega
+
+theorem civil_year_lt (z0 : Int) (h : z0 < 3652) : (civilFromDays z0).1 < 1980 := by
+  unfold civilFromDays
+  simp only
+  by_cases h5 : z0 + 719468 < 584388
+  · split <;> split <;> omega
+  · have hc : (z0 + 719468) / 146097 = 4 := by omega
+    have hd : (z0 + 719468) % 146097 = z0 + 719468 - 584388 := by omega
+    rw [hc, hd]
+    by_cases h6 : z0 + 719468 - 584388 < 138426
+    · split <;> split <;> omega
+    · split <;> split <;> omega
+
+/-! ## sorting is independent of the listing order -/
+
+theorem sortBy_perm {α : Type} (key : α → PathKey) (l₁ l₂ : List α) (hp : l₁.Perm l₂)
+    (hinj : ∀ a ∈ l₁, ∀ b ∈ l₁, key a = key b → a = b) : sortBy key l₁ = sortBy key l₂ := by
+  unfold sortBy
+  have tr : ∀ a b c : α, pathLe (key a) (key b) = true → pathLe (key b) (key c) = true → pathLe (key a) (key c) = true :=
+    fun a b c => pathLe_trans _ _ _
+  have tot : ∀ a b : α, (pathLe (key a) (key b) || pathLe (key b) (key a)) = true := fun a b => pathLe_total _ _
+  apply List.Perm.eq_of_pairwise (le := fun a b => pathLe (key a) (key b) = true)
+  · intro a b ha hb h1 h2
+    have ha' : a ∈ l₁ := (List.mergeSort_perm l₁ _).mem_iff.1 ha
+    have hb' : b ∈ l₁ := hp.mem_iff.2 ((List.mergeSort_perm l₂ _).mem_iff.1 hb)
+    exact hinj a ha' b hb' (pathLe_antisymm _ _ h1 h2)
+  · exact List.pairwise_mergeSort tr tot l₁
+  · exact List.pairwise_mergeSort tr tot l₂
+  · exact (List.mergeSort_perm l₁ _).trans (hp.trans (List.mergeSort_perm l₂ _).symm)
+
+theorem sortBy_root {α : Type} (root : PathKey) (key : α → PathKey) (l : List α) :
+    sortBy (fun a => root ++ key a) l = sortBy key l := by
+  unfold sortBy
+  congr 1
+  funext a b
+  simp [pathLe, compare_append_left]
+
+theorem sortBy_map {α : Type} (key : α → PathKey) (h : α → α) (hk : ∀ a, key (h a) = key a) (l : List α) :
+    sortBy key (l.map h) = (sortBy key l).map h := by
+  unfold sortBy
+  rw [List.map_mergeSort (s := fun a b => pathLe (key a) (key b))]
+  intro a _ b _
+  simp [hk]
+
+theorem inj_of_nodup_map {α β : Type} (f : α → β) (l : List α) (h : (l.map f).Nodup) :
+    ∀ a ∈ l, ∀ b ∈ l, f a = f b → a = b := by
+  induction l with
+  | nil => intro a ha; cases ha
+  | cons x xs ih =>
+    rw [List.map_cons, List.nodup_cons] at h
+    intro a ha b hb e
+    rcases List.mem_cons.1 ha with rfl | ha' <;> rcases List.mem_cons.1 hb with rfl | hb'
+    · rfl
+    · exact absurd (List.mem_map.2 ⟨b, hb', e.symm⟩) h.1
+    · exact absurd (List.mem_map.2 ⟨a, ha', e⟩) h.1
+    · exact ih h.2 a ha' b hb' e
+
+/-! ## closed form of the permission normalisation; what it does not read -/
+
+theorem norm_closed (m : Nat) : Gen.normalizeFilePermissions m = 512 * (m / 512) + low9 (m % 512) := by
+  have := Nat.div_add_mod (Gen.normalizeFilePermissions m) 512
+  rw [norm_div, norm_mod] at this
+  exact this.symm
+
+/-- two modes that differ at most in the permission bits other than owner-execute -/
+def ModeEquiv (m m' : Nat) : Prop := m / 512 = m' / 512 ∧ (m &&& 64) = (m' &&& 64)
+
+theorem norm_congr (m m' : Nat) (h : ModeEquiv m m') :
+    Gen.normalizeFilePermissions m = Gen.normalizeFilePermissions m' := by
+  rw [norm_closed, norm_closed, h.1]
+  unfold low9
+  rw [← and64_mod, ← and64_mod, h.2]
+
+theorem and_high (m : Nat) : m &&& 61440 = ((m / 512) &&& 120) * 512 := by
+  apply Nat.eq_of_testBit_eq
+  intro i
+  have e1 : (61440 : Nat) = 120 <<< 9 := by decide
+  have e2 : ((m / 512) &&& 120) * 512 = ((m >>> 9) &&& 120) <<< 9 := by
+    rw [Nat.shiftLeft_eq, Nat.shiftRight_eq_div_pow]
+  rw [e2, e1]
+  simp only [Nat.testBit_and, Nat.testBit_shiftLeft, Nat.testBit_shiftRight]
+  by_cases h : 9 ≤ i
+  · simp [h]
+  · simp [h]
+
+theorem sIsDir_congr (m m' : Nat) (h : ModeEquiv m m') : sIsDir m = sIsDir m' := by
+  unfold sIsDir; rw [and_high m, and_high m', h.1]
+
+theorem addFileAttr_congr (m m' : Nat) (h : ModeEquiv m m') : addFileAttr m = addFileAttr m' := by
+  unfold addFileAttr; rw [norm_congr m m' h, sIsDir_congr m m' h]
+
+theorem sIMode_eq (m : Nat) : sIMode m = m % 4096 := by
+  unfold sIMode
+  have : (4095 : Nat) = 2 ^ 12 - 1 := rfl
+  rw [this, Nat.and_two_pow_sub_one_eq_mod]
+
+theorem modeEquiv_sIMode (m m' : Nat) (h : ModeEquiv m m') : ModeEquiv (sIMode m) (sIMode m') := by
+  obtain ⟨h1, h2⟩ := h
+  constructor
+  · rw [sIMode_eq, sIMode_eq]; omega
+  · rw [and64_mod (sIMode m), and64_mod (sIMode m'), sIMode_eq, sIMode_eq]
+    have a : m % 4096 % 512 = m % 512 := by omega
+    have b : m' % 4096 % 512 = m' % 512 := by omega
+    rw [a, b, ← and64_mod, ← and64_mod, h2]
+
+
+/-! ## descriptions are functions of the sorted (key, member) pairs -/
+
+theorem sort_map_key {α β : Type} (key : α → PathKey) (f : α → β) (l : List α) :
+    (sortBy key l).map f =
+      ((l.map (fun a => (key a, f a))).mergeSort (fun x y => pathLe x.1 y.1)).map Prod.snd := by
+  unfold sortBy
+  rw [← List.map_mergeSort (r := fun a b => pathLe (key a) (key b)) (f := fun a => (key a, f a))
+        (s := fun x y => pathLe x.1 y.1) (l := l) (fun a _ b _ => rfl)]
+  simp [List.map_map, Function.comp_def]
+
+theorem run_congr (ops ops' : List Op) (h : ops.map Op.member = ops'.map Op.member) : run {} ops = run {} ops' := by
+  rw [run_eq, run_eq]
+  have : ops.map (fun o => o.member.row) = ops'.map (fun o => o.member.row) := by
+    have := congrArg (List.map Member.row) h
+    simpa [List.map_map, Function.comp_def] using this
+  simp [h, this]
+
+theorem buildWheel_congr (H : String → String) (p p' : WheelPlan) (hd : p.distInfo = p'.distInfo)
+    (h : (wheelOps p).map Op.member = (wheelOps p').map Op.member) : buildWheel H p = buildWheel H p' := by
+  unfold buildWheel; rw [run_congr _ _ h, hd]
+
+theorem describeWheel_congr (H : String → String) (sde : Option String) (p p' : WheelPlan)
+    (h : buildWheel H p = buildWheel H p') : describeWheel H sde p = describeWheel H sde p' := by
+  unfold describeWheel; rw [h]
+
+/-- the member `_copy_module` writes for a selected file -/
+def SelFile.member (f : SelFile) : Member := ⟨f.target, addFileAttr f.stMode, f.digest, f.size⟩
+
+theorem copyModule_members (root : PathKey) (l : List SelFile) :
+    (copyModuleOps root l).map Op.member =
+      ((l.map (fun f => (f.src, f.member))).mergeSort (fun x y => pathLe x.1 y.1)).map Prod.snd := by
+  unfold copyModuleOps
+  rw [sortBy_root, List.map_map, ← sort_map_key]
+  rfl
+
+theorem selectWheel_mem (rules : List IncludeRule) (tree : List FileEntry) (a : SelFile)
+    (h : a ∈ selectWheel rules tree) : ∃ f ∈ tree, a.src = f.rel ∧
+      a = ⟨f.rel, ((rules.find? fun r => r.sel f.rel).map fun r => r.target f.rel).getD "", f.stMode, f.digest, f.size⟩ := by
+  unfold selectWheel at h
+  rw [List.mem_filterMap] at h
+  obtain ⟨f, hf, e⟩ := h
+  refine ⟨f, hf, ?_⟩
+  cases hr : (rules.find? fun r => r.sel f.rel) with
+  | none => simp [hr] at e
+  | some r => simp [hr] at e; subst e; simp
+
+theorem selectWheel_inj (rules : List IncludeRule) (tree : List FileEntry) (nd : (tree.map (·.rel)).Nodup) :
+    ∀ a ∈ selectWheel rules tree, ∀ b ∈ selectWheel rules tree, a.src = b.src → a = b := by
+  intro a ha b hb e
+  obtain ⟨f, hf, ef, ea⟩ := selectWheel_mem rules tree a ha
+  obtain ⟨g, hg, eg, eb⟩ := selectWheel_mem rules tree b hb
+  have : f = g := inj_of_nodup_map (·.rel) tree nd f hf g hg (by rw [← ef, ← eg, e])
+  subst this; rw [ea, eb]
+
+theorem selectSdist_inj (sel : PathKey → Bool) (tree : List FileEntry) (nd : (tree.map (·.rel)).Nodup) :
+    ∀ a ∈ selectSdist sel tree, ∀ b ∈ selectSdist sel tree, a.rel = b.rel → a = b := by
+  intro a ha b hb e
+  unfold selectSdist at ha hb
+  rw [List.mem_map] at ha hb
+  obtain ⟨f, hf, rfl⟩ := ha
+  obtain ⟨g, hg, rfl⟩ := hb
+  have : f = g := inj_of_nodup_map (·.rel) tree nd f (List.mem_filter.1 hf).1 g (List.mem_filter.1 hg).1 e
+  subst this; rfl
+
+
+/-! ## what the descriptions do not read -/
+
+/-- the cleaned header of a selected sdist file -/
+def sdistEntry (mt : Int) (tarDir : String) (f : SdistFile) : TarMeta :=
+  cleanTarinfo mt { name := tarDir ++ "/" ++ posix f.rel, mode := f.mode, uid := f.uid, gid := f.gid,
+                    uname := f.uname, gname := f.gname, mtime := f.mtime, size := f.size, digest := f.digest }
+
+theorem sdistEntries_eq (sde : Option String) (p : SdistPlan) :
+    sdistEntries sde p = (sortBy (fun f => f.rel) p.files).map (sdistEntry (archiveMtime sde) p.tarDir) ++
+      [cleanTarinfo (archiveMtime sde) (freshTarInfo (p.tarDir ++ "/PKG-INFO") p.pkgInfoSize p.pkgInfoDigest)] := rfl
+
+theorem sdistEntry_val (mt : Int) (tarDir : String) (f : SdistFile) :
+    sdistEntry mt tarDir f =
+      ⟨tarDir ++ "/" ++ posix f.rel, Gen.normalizeFilePermissions f.mode, 0, 0, "", "", mt, f.size, f.digest⟩ := rfl
+
+theorem sdist_files_congr (sde : Option String) (tarDir : String) (pd : String) (pn : Nat) (l l' : List SdistFile)
+    (h : l.map (fun f => (f.rel, sdistEntry (archiveMtime sde) tarDir f)) =
+         l'.map (fun f => (f.rel, sdistEntry (archiveMtime sde) tarDir f))) :
+    describeSdist sde ⟨tarDir, l, pd, pn⟩ = describeSdist sde ⟨tarDir, l', pd, pn⟩ := by
+  unfold describeSdist
+  rw [sdistEntries_eq, sdistEntries_eq]
+  simp only
+  rw [sort_map_key, sort_map_key, h]
+
+theorem selectWheel_map (rules : List IncludeRule) (tree : List FileEntry) (g : FileEntry → FileEntry)
+    (hg : ∀ f, (g f).rel = f.rel ∧ (g f).digest = f.digest ∧ (g f).size = f.size ∧ ModeEquiv (g f).stMode f.stMode) :
+    (selectWheel rules (tree.map g)).map (fun f => (f.src, f.member)) =
+      (selectWheel rules tree).map (fun f => (f.src, f.member)) := by
+  unfold selectWheel
+  rw [List.filterMap_map, List.map_filterMap, List.map_filterMap]
+  have key : ∀ f : FileEntry,
+      Option.map (fun f : SelFile => (f.src, f.member))
+        (((fun f : FileEntry => Option.map (fun r : IncludeRule => (⟨f.rel, r.target f.rel, f.stMode, f.digest, f.size⟩ : SelFile))
+          (List.find? (fun r => r.sel f.rel) rules)) ∘ g) f) =
+      Option.map (fun f : SelFile => (f.src, f.member))
+        (Option.map (fun r : IncludeRule => (⟨f.rel, r.target f.rel, f.stMode, f.digest, f.size⟩ : SelFile))
+          (List.find? (fun r => r.sel f.rel) rules)) := by
+    intro f
+    obtain ⟨h1, h2, h3, h4⟩ := hg f
+    simp only [Function.comp, h1]
+    cases (rules.find? fun r => r.sel f.rel) with
+    | none => rfl
+    | some r => simp [SelFile.member, h2, h3, addFileAttr_congr _ _ h4]
+  simp only [key]
+
+theorem selectSdist_map (sde : Option String) (tarDir : String) (sel : PathKey → Bool) (tree : List FileEntry)
+    (g : FileEntry → FileEntry)
+    (hg : ∀ f, (g f).rel = f.rel ∧ (g f).digest = f.digest ∧ (g f).size = f.size ∧ ModeEquiv (g f).stMode f.stMode) :
+    (selectSdist sel (tree.map g)).map (fun f => (f.rel, sdistEntry (archiveMtime sde) tarDir f)) =
+      (selectSdist sel tree).map (fun f => (f.rel, sdistEntry (archiveMtime sde) tarDir f)) := by
+  unfold selectSdist
+  rw [List.filter_map, List.map_map, List.map_map, List.map_map]
+  have hf : (fun f => sel f.rel) ∘ g = fun f => sel f.rel := by funext f; simp [(hg f).1]
+  rw [hf]
+  apply List.map_congr_left
+  intro f _
+  obtain ⟨h1, h2, h3, h4⟩ := hg f
+  simp [sdistEntry_val, h1, h2, h3, norm_congr _ _ (modeEquiv_sIMode _ _ h4)]
 
 end Poetry.Build
